@@ -33,9 +33,6 @@ NOT_APPLICABLE = {
     "C01": "restart == replay of the WAL by open_with_prefs over files, roll-over and GC: " + NA_GLUE,
     "C02": "pending: torn-write check under construction",
     "C03": "the property is the order of flush / sync_data / sync_directory / remove_file calls issued by multi_record_log.rs and rolling/directory.rs: " + NA_GLUE,
-    "C04": "pending",
-    "C05": "pending",
-    "C06": "pending",
     "C08": "pending",
     "C09": "pending",
     "C10": "pending",
@@ -44,8 +41,6 @@ NOT_APPLICABLE = {
     "C13": "'nothing was written and the outcome says 0' is a statement about MultiRecordLog::{create_queue,delete_queue,append_records,truncate} and the writer's I/O: " + NA_GLUE,
     "C14": "lock-step runs of MultiRecordLog under different policies (and Instant::now): " + NA_GLUE,
     "C15": "pending",
-    "C16": "pending",
-    "C17": "pending",
     "C18": "isolation is delivered by the HashMap<String, MemQueue> lookups and by the GC glue: " + NA_GLUE,
 }
 
@@ -90,5 +85,112 @@ CHECKS = {
                     "block sizes other than 16/32 on the data path", "the real CRC-32 polynomial"],
         "assumptions": [CRC_ASSUMPTION, DEV_ASSUMPTION,
                         "claims made at B=16/32 do not by themselves extend to B=32768; the arithmetic that depends on the constant is decided separately at 32768 (c15_real_*)"],
+    },
+
+    "C04": {
+        "design_ref": "DESIGN.md section 4, C04",
+        "technique": "bounded model checking of the compiled Rust (Kani/CBMC): exhaustive op scripts against a reference model",
+        "level_text": ("Bounded model checking of the real MemQueue: every script of <= 3 (quick) / 4 (thorough) operations over "
+                       "{append at next / next+1 / next+2 / next-1 (must be rejected), truncate beyond / far beyond / at last / at first} "
+                       "is executed on the compiled code and compared step by step with a reference whose next position is "
+                       "max(next, t+1) -- i.e. never regresses and is never reused, also after the queue was emptied. Only the "
+                       "in-memory half of the property: survival across GC / restart / crash is MultiRecordLog glue and not claimed."),
+        "level_note": "trusted: kani-compiler, CBMC, CaDiCaL, the 40-line reference queue in harness/mem.rs; positions are concrete values near 0, 5 and 2^62-16 (a symbolic truncation point exceeds 28 GB, DESIGN B16)",
+        "filters": ["c04_"],
+        "quick": {"harnesses": [("real", "c04_pos*_q*")], "jobs": 14, "timeout": 900},
+        "thorough": {"harnesses": [("real", "c04_pos*_q*"), ("real", "c04_pos*_t*")], "jobs": 16, "timeout": 2400},
+        "rule": ("case = one operation script (base-N digits over the alphabet, see harness/mem.rs mem_scripts) run on the real "
+                 "MemQueue and on the reference in lock step, assertions after every step; non-trivial = at least two accepted "
+                 "appends; counts are read from CBMC's symex log (mark_case / mark_nontrivial)"),
+        "samples": ["c04_pos_q_007: scripts 84..95 of 7^3 over [A(next), A(next+2), A(next-1), T(next), T(next+3), T(last), T(first)], base position 5"],
+        "functions": ["mem::queue::MemQueue::{with_next_position,default,append_record,truncate_head,next_position,last_position,position_to_idx}",
+                      "mem::rolling_buffer::RollingBuffer::{new,extend,truncate_head,clear,len}"],
+        "bounds": {"quick": {"script_length": 3, "alphabet": 7, "bases": "5 (K=3); 0 and 2^62-16 (K=2)", "payload": "1 byte"},
+                   "thorough": {"script_length": 4, "bases": "5 (K=4); 0 and 2^62-16 (K=3)"}},
+        "outside": ["RecordPosition entries written by GC, ack_position, replay after restart / crash (MultiRecordLog, MemQueues)", "positions >= 2^62", "symbolic positions"],
+        "assumptions": ["no stub; real Vec / VecDeque / Arc", "positions and truncation targets are concrete per script (derived from the model state), payload bytes symbolic"],
+    },
+    "C05": {
+        "design_ref": "DESIGN.md section 4, C05",
+        "technique": "bounded model checking of the compiled Rust (Kani/CBMC): exhaustive op scripts against a reference model, symbolic payload bytes and range bounds",
+        "level_text": ("Bounded model checking of the in-memory store where payload bytes live (MemQueue + RollingBuffer over the real "
+                       "VecDeque): after every step of every script the truncate count, next/last position, last_record and range(..) "
+                       "are compared with a sequential reference, byte for byte with symbolic payload bytes; range() additionally with "
+                       "symbolic bounds of every RangeBounds shape; a ring-wrap scenario covers all three branches of get_range. "
+                       "create/delete/exists/list and append_records' position_opt handling are MultiRecordLog/HashMap glue and not claimed."),
+        "level_note": "trusted: kani-compiler, CBMC, CaDiCaL, the reference queue in harness/mem.rs; <= 4 retained records, payloads <= 3 bytes, concrete positions",
+        "filters": ["c05_"],
+        "quick": {"harnesses": [("real", "c05_obs*_q*"), ("real", "c05_ring_wrap_q"), ("real", "c05_range_sym_q*")], "jobs": 14, "timeout": 900},
+        "thorough": {"harnesses": [("real", "c05_obs*"), ("real", "c05_ring_wrap_q"), ("real", "c05_range_sym_*")], "jobs": 16, "timeout": 2400},
+        "rule": ("case = one operation script (appends of 0..3 symbolic bytes at next / +1 / +2 / rejected position, truncations at 8 "
+                 "relative targets) or one symbolic-bounds range query on a constructed state; lock step with the reference; "
+                 "non-trivial = at least two accepted appends; counted from CBMC's symex log"),
+        "samples": ["c05_obs_q_011: scripts 99..107 of 6^3 over [A(1,next), A(3,next+2), A(0,next), T(first), T(middle), T(next+3)], base 5",
+                    "c05_range_sym_q3: records at 5,6,8 (len 1,0,2) minus the first, range((any_bound(), any_bound()))",
+                    "c05_ring_wrap_q: 3+3+1 bytes, truncate 2 records, 3+2 bytes: VecDeque wraps"],
+        "functions": ["mem::queue::MemQueue::{append_record,truncate_head,range,last_record,next_position,last_position,is_empty,position_to_idx}",
+                      "mem::rolling_buffer::RollingBuffer::{extend,truncate_head,get_range,clear,len}"],
+        "bounds": {"quick": {"script_length": 3, "alphabet": 6, "payload_len": "0..3", "retained_records": "<= 3"},
+                   "thorough": {"script_length": "3 over 13 ops, 4 over 6 ops", "bases": "5, 7, 2^62-16"}},
+        "outside": ["MultiRecordLog::append_records position_opt handling, create/delete/exists/list/summary (HashMap glue)", "payloads > 3 bytes (ring wrap: <= 6)", "symbolic positions"],
+        "assumptions": ["no stub; real Vec / VecDeque / Cow", "positions concrete per script, payload bytes and range bounds symbolic"],
+    },
+    "C06": {
+        "design_ref": "DESIGN.md section 4, C06",
+        "technique": "bounded model checking of the compiled Rust (Kani/CBMC): exhaustive op scripts, Arc reference counts against a ghost map",
+        "level_text": ("Bounded model checking of the reference bookkeeping that makes a WAL file deletable: after every step of every "
+                       "script (appends under the current or the next file, truncations; one or two queues sharing three files) "
+                       "FileNumber::can_be_deleted() holds exactly for the files in which no retained record of any queue lives, and "
+                       "first_file_number() is the file of the oldest retained record. The GC pass, take_first_unused and the directory "
+                       "listing are glue over std::fs/BTreeSet and not claimed."),
+        "level_note": "trusted: kani-compiler (atomics of Arc treated sequentially), CBMC, CaDiCaL, the ghost map in harness/mem.rs; hook FileNumber::for_verif",
+        "filters": ["c06_"],
+        "quick": {"harnesses": [("real", "c06_files*_q*")], "jobs": 14, "timeout": 900},
+        "thorough": {"harnesses": [("real", "c06_files*")], "jobs": 16, "timeout": 2400},
+        "rule": ("case = one script over [append same file, append after roll-over, truncate first / middle / last] (x2 queues in the "
+                 "files2 family); after each step every file handle is compared with the ghost 'some retained record lives in it'"),
+        "samples": ["c06_files_q_004: scripts 28..34 of 5^3, three file handles, one queue", "c06_files2_q_003: scripts 21..27 of 8^2, two queues"],
+        "functions": ["mem::queue::MemQueue::{append_record,truncate_head,first_file_number}", "rolling::file_number::FileNumber::{clone,can_be_deleted,file_number,eq}", "Arc<u64>"],
+        "bounds": {"quick": {"script_length": "3 (one queue), 2 (two queues)", "files": 3}, "thorough": {"script_length": "4 (one queue), 3 (two queues)"}},
+        "outside": ["FileTracker::take_first_unused (BTreeSet)", "MultiRecordLog::run_gc_if_necessary, Directory::gc, disk_used_bytes, directory listing"],
+        "assumptions": ["no stub", "file handles are created with the guarded hook FileNumber::for_verif instead of FileTracker"],
+    },
+    "C16": {
+        "design_ref": "DESIGN.md section 4, C16",
+        "technique": "bounded model checking of the compiled Rust (Kani/CBMC): exhaustive op scripts, size()/capacity() against the reference's retained bytes",
+        "level_text": ("Bounded model checking of MemQueue::size/capacity: after every step size() == retained payload bytes + "
+                       "n * (per-record constant, measured through the API), size() <= capacity(), and an emptied queue accounts 0. "
+                       "Queue-name bytes and the sum over queues (MemQueues::size over the HashMap) are not claimed."),
+        "level_note": "trusted: kani-compiler, CBMC, CaDiCaL, reference queue; per-record constant obtained from a one-record queue",
+        "filters": ["c16_"],
+        "quick": {"harnesses": [("real", "c16_size_q*")], "jobs": 14, "timeout": 900},
+        "thorough": {"harnesses": [("real", "c16_size*")], "jobs": 16, "timeout": 2400},
+        "rule": "case = one script over appends of 0/2/3 (thorough 0..3) bytes and truncations at first / middle / far future; size and capacity compared after each step",
+        "samples": ["c16_size_q_010: scripts 90..98 of 6^3"],
+        "functions": ["mem::queue::MemQueue::{size,capacity,append_record,truncate_head}", "mem::rolling_buffer::RollingBuffer::{len,capacity,truncate_head,clear,extend}"],
+        "bounds": {"quick": {"script_length": 3}, "thorough": {"script_length": "3 over 8 ops, 4 over 6 ops"}},
+        "outside": ["MemQueues::size (names, HashMap)", "resource_usage()", "payloads > 3 bytes"],
+        "assumptions": ["no stub"],
+    },
+
+    "C17": {
+        "design_ref": "DESIGN.md section 4, C17",
+        "technique": "bounded model checking of the compiled Rust (Kani/CBMC): fully symbolic file name against a reference parser",
+        "level_text": ("Bounded model checking of the one function that decides what counts as a WAL file: for every 24-byte ASCII name "
+                       "filename_to_position returns Some(n) exactly when the name is 'wal-' + 20 decimal digits with value n <= u64::MAX; "
+                       "every ASCII name of any other length 0..30 and every 24-byte name containing one 2-byte (thorough: 3-byte) UTF-8 "
+                       "character is rejected. The directory scan, the regular-file filter and file creation/removal are std::fs and not claimed."),
+        "level_note": "trusted: kani-compiler, CBMC, CaDiCaL, the 20-line reference parser in harness/fname.rs; guarded forwarder to the private function (hook H4)",
+        "filters": ["c17_"],
+        "quick": {"harnesses": [("real", "c17_*_q*")], "jobs": 8, "timeout": 900},
+        "thorough": {"harnesses": [("real", "c17_*")], "jobs": 12, "timeout": 2400, "solvers": ["cadical", "kissat"]},
+        "rule": ("case = one symbolic name family: (a) all 24 bytes symbolic ASCII, (b) one per length 0..30 except 24, (c) one per "
+                 "position of a 2-byte / 3-byte UTF-8 character; the verdict for all byte values is the solver's; counted from the symex log"),
+        "samples": ["c17_ascii24_q: b[0..24] symbolic < 0x80, got == ref_parse(b)", "c17_non_ascii_q1: 2-byte character at byte 8..15, rest symbolic ASCII",
+                    "c17_other_len_q: lengths 0..30 except 24"],
+        "functions": ["rolling::directory::filename_to_position", "core::str::{starts_with, parse::<u64>}", "u8::is_ascii_digit"],
+        "bounds": {"quick": {"name_length": "0..30", "non_ascii": "one 2-byte character"}, "thorough": {"non_ascii": "one 2-byte or one 3-byte character", "solvers": "cadical + kissat"}},
+        "outside": ["Directory::open scan / is_file filter / to_str", "FileNumber::filename (format!) and the round trip through it", "create_file / remove_file only touch such names (std::fs)", "names with 4-byte or several multi-byte characters"],
+        "assumptions": ["no stub", "names are built with from_utf8_unchecked from bytes constrained to valid UTF-8 of the stated shape"],
     },
 }
